@@ -125,6 +125,9 @@ def run(F, ck, tier):
         ck.ob('R01.3', 'special-cases:base~ext', sa == sb and len(sa) >= 4, '%d early returns with identical (operand, guard) signatures' % len(sa) if sa == sb else
               'arithmetic_special_cases and arithmetic_extension_special_cases differ: base returns %s, extension returns %s - a folding shortcut drops a condition (e.g. the scale factor being one) in one of them' % (
                   [x for x in sa if x not in sb], [x for x in sb if x not in sa]), '%s:%d' % (a.file, a.line))
+    ck.rule('R01.6', 'in the prover\'s quotient computation the next-row offset (in the quotient coset) times the step used to read committed oracles is exactly 1 << rate_bits (exponents added as polynomials)')
+    from . import stride
+    ck.floor('R01.6', 'next-row index sites in compute_quotient_polys', stride.check(F, ck, 'R01.6', 'compute_quotient_polys', 'plonky2'), 1)
     ck.decided += ['generators read only declared dependencies', 'prover/verifier transcript agreement', 'prover quotient domain consistency', 'base/extension folding shortcuts agree']
     ck.undecided += ['that proving succeeds and outputs are right for all programs, inputs and configurations (behavioural)', 'gadget arithmetic correctness']
     return 'Decides a few structural necessary conditions of C01 (generator dependency discipline, transcript agreement, quotient-domain consistency, sibling shortcut agreement). The behavioural statement is not decided.'
